@@ -7,7 +7,8 @@ Imports nothing from demeter.  Input is a plain event list produced by recording
     ("HB",   hook, ts, obs) / ("HE", hook)     strategy hook entered / left; hook in initialize, before_bar, on_bar,
                                                after_bar, finalize; ts = snapshot.timestamp (None for initialize /
                                                finalize); obs = {"mts": {market: market_status.timestamp}, "rows": n,
-                                               "last_row_ts": ts|None} = what the strategy can see at that moment
+                                               "last_row_ts": ts|None, "fp": {market: [(column, value)]}} = what the strategy can see
+                                               at that moment (fp = cells of the markets' current status rows)
     ("NB",   uid, stamped_ts) / ("NE", uid)    strategy.notify entered / left for the action object uid
     ("WB",   tid, ts) / ("WE", tid, result)    trigger.when entered / left
     ("DB",   tid, ts) / ("DE", tid)            trigger.do entered / left
@@ -60,7 +61,18 @@ def _rel(expected, i, ts):
     return "earlier-bar" if j < i else "later-bar"
 
 
-def check_log(log, expected, markets, triggers):
+def _row_rel(allowed, i, m, col, val):
+    if i > 0 and val in allowed[i - 1].get(m, {}).get(col, ()):
+        return "previous-bar"
+    if i + 1 < len(allowed) and val in allowed[i + 1].get(m, {}).get(col, ()):
+        return "next-bar"
+    for j, a in enumerate(allowed):
+        if val in a.get(m, {}).get(col, ()):
+            return "earlier-bar" if j < i else "later-bar"
+    return "no-bar"
+
+
+def check_log(log, expected, markets, triggers, allowed=None):
     """triggers: {tid: {"fires": set of bar timestamps at which a trigger registered in initialize must fire exactly
     once, or None when nothing is promised about it}}."""
     R = Result()
@@ -193,6 +205,20 @@ def check_log(log, expected, markets, triggers):
                     if mts != expected[bar]:
                         R.bad("run", "market-status-of-other-bar", f"{hook}:{_rel(expected, bar, mts)}",
                               f"bar {bar} = {expected[bar]}: at {hook} market {m} shows status of {mts}")
+                if allowed is not None:
+                    for m, pairs in obs.get("fp", {}).items():
+                        al = allowed[bar].get(m, {})
+                        R.ev += 1
+                        if not pairs and any(al.values()):
+                            R.bad("run", "market-row-missing-for-bar", hook, f"bar {bar} = {expected[bar]}: at {hook} market {m} shows no rows "
+                                  "although its data has rows inside the bar", {"market": m})
+                        for col, val in pairs:
+                            R.ev += 1
+                            if val not in al.get(col, ()):
+                                R.bad("run", "market-row-of-other-bar", f"{hook}:{_row_rel(allowed, bar, m, col, val)}",
+                                      f"bar {bar} = {expected[bar]}: at {hook} market {m} shows {col} = {val[1:]}, which is not among the "
+                                      f"{len(al.get(col, ()))} raw rows inside the bar", {"market": m})
+                                break
                 if hook == BEFORE:
                     R.ev += 1
                     if obs.get("rows") != bar:
@@ -292,15 +318,9 @@ def check_log(log, expected, markets, triggers):
             if uid in act:
                 R.bad("record", "same-action-object-recorded-twice", typ, f"bar {b}: action {typ} recorded again")
                 continue
+            # recorded in initialize(): belongs to bar 0 (the timestamp that is current when initialize runs)
             act[uid] = {"bar": b, "source": source, "phase": ph, "market": m, "type": typ, "notes": [], "stamps": []}
             act_order.append(uid)
-            if stage in (INIT, PRE) and bar < 0:
-                ph = "initialize"
-                act[uid]["phase"] = ph
-            tgt = cur if cur is not None else None
-            if tgt is None:
-                # recorded in initialize(): belongs to bar 0, attach when bar 0 exists
-                R.stats["init_actions"] += 1
             continue
 
         if k == "NB":
